@@ -329,6 +329,7 @@ type c06Stats struct {
 	viewFreshEq, viewFreshNe, viewFreshBig int
 	viewSpecEq, viewSpecNe                 int
 	corrEmitted, corrSkippedBig            int
+	rawEq, rawNe                           int
 	firstViewDiff                          interface{}
 }
 
@@ -368,6 +369,23 @@ func c06Eval(c *Ctx, cs *c06Case, emit bool, stc *c06Stats) (*finding, []byte) {
 	note := func(kind, want string) {
 		if stc.firstViewDiff == nil {
 			stc.firstViewDiff = map[string]interface{}{"kind": kind, "variant": cs.L.Name, "keys_hex": c06HexKeys(cs.TC.Keys), "loaded_view": loaded, "other_view": want}
+		}
+	}
+	if cs.L.Slim && fresh != nil {
+		a, b := fresh.VerifInner(), st.VerifInner()
+		same := (a.InnerPrefixes == nil) == (b.InnerPrefixes == nil) && (a.Leaves == nil) == (b.Leaves == nil)
+		if same && a.InnerPrefixes != nil {
+			same = bytes.Equal(a.InnerPrefixes.Bytes, b.InnerPrefixes.Bytes)
+		}
+		if same && a.Leaves != nil {
+			same = a.Leaves.N == b.Leaves.N && a.Leaves.EltCnt == b.Leaves.EltCnt && a.Leaves.FixedSize == b.Leaves.FixedSize &&
+				fmt.Sprint(a.Leaves.PresenceBM) == fmt.Sprint(b.Leaves.PresenceBM) && bytes.Equal(a.Leaves.Bytes, b.Leaves.Bytes)
+		}
+		if same {
+			stc.rawEq++
+		} else {
+			stc.rawNe++
+			note("0.5.10 loaded InnerPrefixes.Bytes / Leaves fields vs fresh build", fmt.Sprint(a.InnerPrefixes, a.Leaves))
 		}
 	}
 	if cs.L.Slim {
@@ -602,6 +620,33 @@ func init() {
 		c.Or.Extra["writer_acceptance_summary"] = fmt.Sprintf("%d fixtures: %d reproduced byte-identically, %d identical in every field the loader reads, %d not reproduced, %d files not matched",
 			len(fx), len(acc.Identical), len(acc.Logical), len(acc.Failed), len(acc.Skipped))
 
+		ex, exErr := c06ConfirmCoqExamples(fx)
+		c.Or.Extra["coq_examples_confirmed"] = ex
+		if exErr != nil {
+			// the Examples of coq/props/C06.v no longer describe the files / the loader
+			panic("C06: Coq Example bytes not confirmed by the real loader: " + exErr.Error())
+		}
+
+		// the oracle must notice a stream that encodes another index: write the
+		// values of two keys swapped, keep the expectation unswapped
+		selftest := map[string]bool{}
+		for _, ln := range []string{"a051-u32children", "a059-bm16children-padded", "b0510-allpref"} {
+			l := c06LayoutByName(ln)
+			keys := []string{"a", "ab", "abc\xff", "b"}
+			good := [][]byte{le(4, 10), le(4, 11), le(4, 12), le(4, 13)}
+			bad := [][]byte{good[0], good[2], good[1], good[3]}
+			buf, err := c06Write(l, encode.I32{}, keys, bad, []int32{10, 12, 11, 13})
+			if err == nil {
+				if st, err := c06Load(buf, encode.I32{}); err == nil {
+					selftest[ln] = c06Oracle(st, specByName("I32"), keys, good, false, nil, nil, 10) != nil
+				}
+			}
+			if !selftest[ln] {
+				panic("C06: oracle self-test failed: swapped values not detected in layout " + ln)
+			}
+		}
+		c.Or.Extra["oracle_selftest_detects_swapped_values"] = selftest
+
 		// 2. the fixtures through the oracle
 		spec32 := specByName("I32")
 		for _, f := range fx {
@@ -642,7 +687,8 @@ func init() {
 		// the sets every run must contain
 		sets = append(sets, gen{"empty", []string{}}, gen{"single", []string{""}}, gen{"single", []string{"\xff"}},
 			gen{"halfbyte-prefix", []string{"\xff\xf0", "\xff\xf1"}}, gen{"halfbyte-prefix", []string{"a\xff\xf0b", "a\xff\xffc", "b"}},
-			gen{"emptykey-root", []string{"", "\x00", "\x00\x00", "a"}})
+			gen{"emptykey-root", []string{"", "\x00", "\x00\x00", "a"}},
+			gen{"longruns", []string{strings.Repeat("x", 200) + "a", strings.Repeat("x", 200) + "b", strings.Repeat("x", 200) + "b" + strings.Repeat("\xff", 129)}})
 		for i := 0; len(sets) < nsets; i++ {
 			r := c.R.Fork()
 			if i%3 == 2 {
@@ -734,10 +780,12 @@ func init() {
 		c.Or.Extra["max_step_nibbles_in_a_generated_set"] = maxStep
 		c.Or.Extra["node_view"] = map[string]interface{}{
 			"three_array_loaded_equals_specified_conversion(no big nodes, step-1, empty-label leaf child)": stats.viewSpecEq,
-			"three_array_loaded_differs_from_specified_conversion":                                        stats.viewSpecNe,
-			"loaded_equals_fresh_build(same prefix options, no dedup)":                                    stats.viewFreshEq,
-			"loaded_differs_from_fresh_build_although_fresh_has_no_big_node":                              stats.viewFreshNe,
-			"three_array_cases_where_fresh_build_has_big_nodes(not comparable)":                           stats.viewFreshBig,
+			"three_array_loaded_differs_from_specified_conversion":                                         stats.viewSpecNe,
+			"loaded_equals_fresh_build(same prefix options, no dedup)":                                     stats.viewFreshEq,
+			"loaded_differs_from_fresh_build_although_fresh_has_no_big_node":                               stats.viewFreshNe,
+			"three_array_cases_where_fresh_build_has_big_nodes(not comparable)":                            stats.viewFreshBig,
+			"b0510_loaded_prefix_bytes_and_leaf_fields_equal_fresh_build":                                  stats.rawEq,
+			"b0510_loaded_prefix_bytes_or_leaf_fields_differ_from_fresh_build":                             stats.rawNe,
 			"first_difference": stats.firstViewDiff,
 		}
 		c.Or.Extra["model_correspondence"] = map[string]interface{}{
